@@ -152,12 +152,8 @@ Print Assumptions other_blocks_intact.
 (* ---- AlignedVector<T> = std::vector<T, aligned_allocator<T>>: growth as
    allocate / copy / deallocate *)
 
-(* elements survive reallocation: if the vector owns a live block (or none) and
-   the new capacity holds its elements, the reallocated vector reads back the
-   same elements from a 64-byte aligned (or, for capacity 0, null) data().
-   partial: that every reachable vector owns its block is measured by the
-   differential run (outcome invalid_free / !BADFREE / !LEAK), not proved *)
-Theorem vector_elements_survive_reallocation_partial :
+(* one reallocation step, from any world in which the vector owns a live block (or none) *)
+Theorem vector_reallocation_step :
   forall ost be_malloc be_free ndebug sizeT (w : world ost) v c w' v',
   be_contract be_malloc -> 0 < sizeT ->
   heap_wf (w_live ost w) -> 0 <= v_size v <= c ->
@@ -166,7 +162,40 @@ Theorem vector_elements_survive_reallocation_partial :
   v_contents sizeT (w_mem ost w') v' = v_contents sizeT (w_mem ost w) v /\
   v_size v' = v_size v /\ v_cap v' = c /\ aligned64 v'.
 Proof. exact vrealloc_keeps_stmt. Qed.
-Print Assumptions vector_elements_survive_reallocation_partial.
+Print Assumptions vector_reallocation_step.
+
+(* ownership, by induction over ANY history on two vectors: each vector's data() is null or the
+   address of a live block; the two are different blocks; every live block is the storage of one of
+   them (nothing leaks, nothing else aliases a vector's storage); and no operation ever passes a
+   pointer to alignedFree that is not live (outcome invalid_free is unreachable) *)
+Theorem vector_ownership_every_history :
+  forall ost be_malloc be_free ndebug sizeT vmax grow (st : ost) ops,
+  be_contract be_malloc -> 0 < sizeT -> grow_ok vmax grow -> Forall vop_wf ops ->
+  let s := vs_run ost be_malloc be_free ndebug sizeT vmax grow (vs_init ost st) ops in
+  let live := w_live ost (s_w ost s) in
+  let a := s_a ost s in let b := s_b ost s in
+  (v_data a = 0 \/ exists x, h_find live (v_data a) = Some x) /\
+  (v_data b = 0 \/ exists x, h_find live (v_data b) = Some x) /\
+  (v_data a = 0 \/ v_data a <> v_data b) /\
+  (forall blk, In blk live -> b_addr blk = v_data a \/ b_addr blk = v_data b) /\
+  (forall o, vop_wf o ->
+     fst (vs_step ost be_malloc be_free ndebug sizeT vmax grow s o) <> OInvalidFree).
+Proof. exact vector_ownership. Qed.
+Print Assumptions vector_ownership_every_history.
+
+(* elements survive reallocation - full strength: in EVERY reachable state, for either vector and
+   any new capacity that holds its elements, the reallocated vector reads back the same elements
+   from a 64-byte aligned (capacity 0: null) data() *)
+Theorem vector_elements_survive_reallocation :
+  forall ost be_malloc be_free ndebug sizeT vmax grow (st : ost) ops v c w' v',
+  be_contract be_malloc -> 0 < sizeT -> grow_ok vmax grow -> Forall vop_wf ops ->
+  let s := vs_run ost be_malloc be_free ndebug sizeT vmax grow (vs_init ost st) ops in
+  v = s_a ost s \/ v = s_b ost s -> v_size v <= c ->
+  v_realloc ost be_malloc be_free ndebug sizeT true (s_w ost s) v c = (OOk, w', v') ->
+  v_contents sizeT (w_mem ost w') v' = v_contents sizeT (w_mem ost (s_w ost s)) v /\
+  v_size v' = v_size v /\ v_cap v' = c /\ aligned64 v'.
+Proof. exact vrealloc_keeps_reachable. Qed.
+Print Assumptions vector_elements_survive_reallocation.
 
 (* after ANY history of push_back/resize/reserve/shrink_to_fit/assign/clear/swap
    on two vectors (arguments non-negative, as size_t is): the heap is
